@@ -1294,6 +1294,73 @@ theorem lastNonce_mono_foldl (post : List Op) : ∀ s : State, s.lastNonce ≤ (
 
 theorem bbytes_addConfirm (b : Batch) (c : BConfirm) : bbytes (addConfirm b c) = bbytes b := rfl
 
+/-! ### idle blocks and the keyed confirmation store (round-4 strengthening) -/
+
+/-- a message with an elected estimate goes through the end-block step untouched -/
+theorem electOne_of_elected (env : Env) (snap : Snap) (it : Item) (h : it.elected > 0) : electOne env snap it = it := by
+  unfold electOne
+  simp [h]
+
+theorem electOne_idem (env : Env) (snap : Snap) (it : Item) :
+    electOne env snap (electOne env snap it) = electOne env snap it := by
+  rcases electOne_spec env snap it with h | ⟨_, _, g, _, hg, h | h⟩
+  · rw [h, h]
+  · obtain ⟨_, f, _, he⟩ := h
+    rw [he]
+    exact electOne_of_elected _ _ _ (by simp; omega)
+  · rw [h.2]
+    exact electOne_of_elected _ _ _ (by simp; omega)
+
+theorem idleBlocks_succ (s : State) (n : Nat) : idleBlocks s (n + 1) = idleBlocks (endBlock s).1 n := by
+  simp [idleBlocks, List.replicate_succ, apply]
+
+theorem run_idle (ops : List Op) (n : Nat) : run (ops ++ List.replicate n Op.endBlock) = idleBlocks (run ops) n := by
+  rw [run_append]; rfl
+
+/-- a fold of key deletions is one filter -/
+theorem foldl_filter_eq {α β} (p : β → α → Bool) (l : List β) : ∀ st : List α,
+    l.foldl (fun acc r => acc.filter (p r)) st = st.filter (fun e => l.all (fun r => p r e)) := by
+  induction l with
+  | nil => intro st; simp only [List.foldl_nil, List.all_nil]; exact (List.filter_eq_self.2 (fun _ _ => rfl)).symm
+  | cons r l ih =>
+    intro st
+    simp only [List.foldl_cons, List.all_cons]
+    rw [ih, List.filter_filter]
+    congr 1
+    funext e
+    exact Bool.and_comm _ _
+
+theorem deleteBatchConfirmsBy_eq (keyOf : ConfRec → Nat) (st : ConfStore) (n : Nat) :
+    deleteBatchConfirmsBy keyOf st n = st.filter (fun e => (confirmsOf st n).all (fun r => e.1 != (n, keyOf r))) := by
+  unfold deleteBatchConfirmsBy
+  exact foldl_filter_eq (fun r e => e.1 != (n, keyOf r)) _ st
+
+/-- every record sits under the key of its own orchestrator -/
+def Keyed (st : ConfStore) : Prop := ∀ e ∈ st, e.1.2 = e.2.val
+
+theorem keyed_setBatchConfirm {st : ConfStore} (h : Keyed st) (n : Nat) (r : ConfRec) : Keyed (setBatchConfirm st n r) := by
+  intro e he
+  unfold setBatchConfirm at he
+  rcases List.mem_append.1 he with he | he
+  · exact h e (List.mem_filter.1 he).1
+  · simp at he; subst he; rfl
+
+theorem keyed_deleteBatchConfirmsBy {st : ConfStore} (h : Keyed st) (keyOf : ConfRec → Nat) (n : Nat) :
+    Keyed (deleteBatchConfirmsBy keyOf st n) := by
+  intro e he
+  rw [deleteBatchConfirmsBy_eq] at he
+  exact h e (List.mem_filter.1 he).1
+
+inductive SOp where
+  | set (nonce : Nat) (r : ConfRec)
+  | del (nonce : Nat)
+
+def sapply (st : ConfStore) : SOp → ConfStore
+  | .set n r => setBatchConfirm st n r
+  | .del n => deleteBatchConfirms st n
+
+def srun (ops : List SOp) : ConfStore := ops.foldl sapply []
+
 end Lemmas
 
 /-! ## Property theorems -/
@@ -2230,5 +2297,124 @@ example : ((run batchTakeover).batches.map fun b => (b.nonce, (bbytes b).gas, b.
 example : (run batchTakeover).regs = [(1, [⟨0, 12, 12, false⟩]), (2, [⟨0, 4, 4, false⟩])] := by decide
 -- a colliding registration (validator 3 claims validator 2's key bytes under another address) is refused
 example : (register (run batchTakeover) 3 [⟨0, 16, 4, false⟩]).2 = false := by decide
+
+/-! ### round-4 strengthening: confirmations delivered by another account; messages that sit unrelayed -/
+
+/-- **conf_store_keyed_all_histories**: after any history of confirmations (delivered by whatever account)
+and re-issues, every stored confirmation sits under the key of the orchestrator it names. -/
+theorem conf_store_keyed_all_histories (ops : List SOp) : Keyed (srun ops) := by
+  unfold srun
+  suffices h : ∀ st, Keyed st → Keyed (ops.foldl sapply st) from h [] (by intro e he; cases he)
+  induction ops with
+  | nil => intro st h; exact h
+  | cons op ops ih =>
+    intro st h
+    apply ih
+    cases op with
+    | set n r => exact keyed_setBatchConfirm h n r
+    | del n => exact keyed_deleteBatchConfirmsBy h _ n
+
+/-- **deleteBatchConfirms_complete** (clause 3 for bridge batches at the level of the store: "discarded
+rather than carried over").  On a store where every record sits under its orchestrator's key,
+`DeleteBatchConfirms` leaves NO confirmation under the batch — whoever created the transactions that
+delivered them (`ConfRec.creator` is arbitrary). -/
+theorem deleteBatchConfirms_complete (st : ConfStore) (n : Nat) (h : Keyed st) :
+    confirmsOf (deleteBatchConfirms st n) n = [] := by
+  unfold deleteBatchConfirms
+  rw [deleteBatchConfirmsBy_eq]
+  unfold confirmsOf
+  rw [List.map_eq_nil_iff, List.filter_filter, List.filter_eq_nil_iff]
+  intro e he
+  simp only [Bool.and_eq_true, not_and, beq_iff_eq]
+  intro hn hall
+  have hmem : e.2 ∈ (st.filter (fun e => e.1.1 == n)).map (·.2) :=
+    List.mem_map.2 ⟨e, List.mem_filter.2 ⟨he, by simpa using hn⟩, rfl⟩
+  have := List.all_eq_true.1 hall e.2 hmem
+  have hk := h e he
+  apply (bne_iff_ne.1 this)
+  rw [← hk, ← hn]
+
+/-- the re-issue of one batch touches no other batch's confirmations -/
+theorem deleteBatchConfirms_frame (st : ConfStore) (n m : Nat) (hm : m ≠ n) :
+    confirmsOf (deleteBatchConfirms st n) m = confirmsOf st m := by
+  unfold deleteBatchConfirms
+  rw [deleteBatchConfirmsBy_eq]
+  unfold confirmsOf
+  rw [List.filter_filter]
+  congr 1
+  apply List.filter_congr
+  intro e _
+  by_cases hem : e.1.1 = m
+  · have : ((confirmsOf st n).all fun r => e.1 != (n, r.val)) = true := by
+      apply List.all_eq_true.2
+      intro r _
+      apply bne_iff_ne.2
+      intro heq
+      apply hm
+      rw [← hem, heq]
+    unfold confirmsOf at this
+    simp [hem, this]
+  · simp [hem]
+
+/-- **reissue_discards_every_confirm**: after ANY history of the confirmation store, the re-issue of a
+batch leaves no confirmation with it. -/
+theorem reissue_discards_every_confirm (ops : List SOp) (n : Nat) : confirmsOf (srun (ops ++ [.del n])) n = [] := by
+  unfold srun
+  rw [List.foldl_append]
+  exact deleteBatchConfirms_complete _ n (conf_store_keyed_all_histories ops)
+
+/-- a confirmation is found under its batch once written, whoever delivered it -/
+theorem setBatchConfirm_found (st : ConfStore) (n : Nat) (r : ConfRec) : r ∈ confirmsOf (setBatchConfirm st n r) n := by
+  unfold confirmsOf setBatchConfirm
+  simp
+
+/-- non-vacuity: validators 1 and 2 confirm batch 9; validator 2's confirmation is delivered by account
+100 (not its orchestrator); validator 1 also confirms batch 10.  The re-issue of batch 9 empties it and
+leaves batch 10 alone. -/
+def demoStore : List SOp := [.set 9 ⟨1, 1, 4⟩, .set 9 ⟨2, 100, 8⟩, .set 10 ⟨1, 1, 4⟩]
+
+example : (confirmsOf (srun demoStore) 9).map (fun r => (r.val, r.creator)) = [(1, 1), (2, 100)] ∧
+    confirmsOf (srun (demoStore ++ [.del 9])) 9 = [] ∧
+    (confirmsOf (srun (demoStore ++ [.del 9])) 10).map (fun r => (r.val, r.creator)) = [(1, 1)] := by decide
+
+/-- negation witness: a delete that derives the key from the transaction creator (as
+`DeleteBatchGasEstimates` does for estimates) misses the confirmation delivered by another account — it
+would be carried over the change of the checkpoint. -/
+example : (confirmsOf (deleteBatchConfirmsBy (·.creator) (srun demoStore) 9) 9).map (fun r => (r.val, r.creator)) = [(2, 100)] := by decide
+
+/-- **endBlock_idempotent**: a second end-block step directly after the first changes nothing. -/
+theorem endBlock_idempotent (s : State) : (endBlock (endBlock s).1).1 = (endBlock s).1 := by
+  unfold endBlock
+  cases hs : s.env.snapshot with
+  | none => simp [hs]
+  | some snap =>
+    simp only [hs, List.map_map]
+    congr 1
+    apply List.map_congr_left
+    intro it _
+    exact electOne_idem s.env snap it
+
+/-- **idle_blocks_equal_one_block**: however many blocks pass without a submission, the state is the one
+after the first of them: a queued message that nobody relays keeps its assignee, its relayer address and
+(if it was not elected in that first block) every signature, for as long as it sits in the queue. -/
+theorem idle_blocks_equal_one_block (s : State) (n : Nat) : idleBlocks s (n + 1) = (endBlock s).1 := by
+  induction n generalizing s with
+  | zero => simp [idleBlocks, apply]
+  | succ n ih => rw [idleBlocks_succ, ih, endBlock_idempotent]
+
+/-- **unrelayed_message_keeps_relayer_and_valid_signatures** (clauses 1 and 3, "relayer", over time): let any
+history be followed by any number of blocks in which nothing is submitted.  The message with a given id
+still has the same kind, payload, sender, assignee, relayer address and estimate flag, and every
+signature stored with it verifies against its current signing bytes. -/
+theorem unrelayed_message_keeps_relayer_and_valid_signatures (ops : List Op) (n : Nat) (it it' : Item)
+    (hit : it ∈ (run ops).queue) (hit' : it' ∈ (idleBlocks (run ops) n).queue) (hid : it'.id = it.id) :
+    SameCore it it' ∧ ∀ sg ∈ it'.sigs, SigOk it' sg := by
+  rw [← run_idle] at hit'
+  exact ⟨core_fields_never_change ops _ it it' hit hit' hid,
+    ((invariant_all_histories (ops ++ List.replicate n Op.endBlock)).1 it' hit').1⟩
+
+/-- non-vacuity: the demo message (two signatures, one estimate: no quorum) after 45 idle blocks -/
+example : ((idleBlocks (run (demo.take 9)) (44 + 1)).queue.map fun it => (it.assignee, it.remote, it.sigs.length, it.sigs.all fun g => g.for_ == bytesOf it)) =
+    [(1, 4, 2, true)] := by rw [idle_blocks_equal_one_block]; decide
 
 end Paloma.Queue
